@@ -4,8 +4,8 @@ from . import common as C
 
 MANIFEST = dict(
    technique="Lean 4 proof: regex-derivative matcher vs per-format specification automaton, equivalence for ALL strings from a kernel-checked bisimulation certificate; regexes regenerated from the library by a translator on every run; Go parsers and real schemas tied by differential correspondence on single-edit neighbourhoods",
-   text="For IPv4, Hex, E.164, MAC (':' and '-'), Base64, UUID (generic, v4, v6, v7), GUID the theorem c20_<fmt> proves for every byte string that the validator's regular expression (translated from the live regexp object by regexp/syntax on every run) accepts it iff the format's definition (a small step automaton written independently) does; c20_<fmt>_pattern proves the same for the pattern exported to JSON Schema. For CIDRv4, ISO date and ISO date-time (validated by Go parsers) the exported pattern has the same kind of theorem and the parser is tied to the definition by correspondence. If a regex changes, the certificate is recomputed; if it is no longer equivalent the search returns a shortest distinguishing string which is replayed against the real schema. IPv6/CIDRv6 are correspondence-only (no certificate).",
-   note="Trusted: Lean kernel; axioms propext/Classical.choice/Quot.sound only; the translator (regexp/syntax AST -> Lean term; validated by comparing Re.accepts with Go regexp on every generated case); the specification automata in Model/FormatSpec.lean as the reading of the documented formats; Go regexp semantics as the reading of a JSON-Schema pattern. Parser-based validators (net.ParseCIDR/netip, time.Parse) are modelled by hand transcription validated on generated cases only. IPv6 family: RFC 4291 recogniser vs the library on generated cases only.",
+   text="For IPv4, Hex, E.164, MAC (':' and '-'), Base64, UUID (generic, v4, v6, v7), GUID the theorem c20_<fmt> proves for every byte string that the validator's regular expression (translated from the live regexp object by regexp/syntax on every run) accepts it iff the format's definition (a small step automaton written independently) does; c20_<fmt>_pattern proves the same for the pattern exported to JSON Schema. For CIDRv4, ISO date and ISO date-time (validated by Go parsers) the exported pattern has the same kind of theorem and the parser is tied to the definition by correspondence. If a regex changes, the certificate is recomputed; if it is no longer equivalent the search returns a shortest distinguishing string which is replayed against the real schema. IPv6 / CIDRv6: the definition is the RFC 4291 text form as a step automaton (Fmt.ipv6 / Fmt.cidrv6); c20_ipv6_pattern_partial and c20_cidrv6_pattern_partial prove the exported patterns right on every string without '.' and '%' (certificates over the restricted alphabet), the witness theorems show the three ways they are wrong on the others (zone id, leading zero in the dotted quad, missing dotted-quad shapes; open findings, pattern text pinned by a test); the validators (netip) are modelled by the definitions. accepts_iff_lang proves the derivative matcher recognises the regular language; with the concatenation lemma every IsoDateTime(options) option set (28) has its all-strings theorem c20_dto_* (date certificate once + a small tail certificate each). c20_isodate proves the transcription of time.Parse(\"2006-01-02\") equal to the calendar-date definition for all strings; c20_uuidp4/6/7 cover UUID(\"vN\") (two checks, allOf of two patterns).",
+   note="Trusted: Lean kernel; axioms propext/Classical.choice/Quot.sound only; the translator (regexp/syntax AST -> Lean term; validated by comparing Re.accepts with Go regexp on every generated case); the specification automata in Model/FormatSpec.lean as the reading of the documented formats; Go regexp semantics as the reading of a JSON-Schema pattern. Parser-based validators (netip.ParseAddr/ParsePrefix, time.Parse) are modelled by hand transcription (netip: by the definition itself) validated on generated cases and tied by a go/ast structure fingerprint of the validator functions; time.Parse(RFC3339) has no all-strings theorem. IPv6 family on strings with '.' or '%': two independent readings of RFC 4291 (automaton and list-based) vs the library on generated cases.",
    design="DESIGN.md §5 C20; notes/C20.md")
 
 MODULES = ["Gozod.Proofs.C20", "Gozod.Proofs.C20DateTime", "Gozod.Proofs.C20Parsers"]
@@ -223,6 +223,7 @@ def run(res):
     res.assumptions += [
         "a JSON-Schema pattern is read with Go regexp semantics ($ = end of text); all C20 patterns are ASCII classes, anchored",
         "Fmt.* automata are the reading of the documented formats (RFC 4648 padding, RFC 3339 seconds mandatory, no leading zeros in octets/prefix lengths)",
-        "IPv6/CIDRv6: no certificate; RFC 4291 recogniser vs library on generated cases only",
+        "IPv6/CIDRv6: the all-strings theorems cover the strings without '.' and '%'; elsewhere RFC 4291 recognisers (two readings) vs the library on generated cases, with the listed open pattern findings",
+        "netip.ParseAddr/ParsePrefix accept the RFC 4291 / dotted-quad text forms and canonical prefix lengths (goIPv6, goCIDRv4/6 are the definitions themselves; checked on every generated case)",
     ]
     return res.finish()
